@@ -127,6 +127,10 @@ var c08Sources = map[string]string{
 	"var-main": c08Dump + `{ dump(); r = (getline v); got(r, v); dump() }`,
 	"var-file": c08Dump + `{ dump(); r = (getline v < AUX); got(r, v); dump() }`,
 	"file":     c08Dump + `{ dump(); r = (getline < AUX); got(r, ""); dump() }`,
+	// the same with the getline executed BEFORE the first look at NF or a field of the record
+	// (fields are produced lazily: the first look must still show the current record's)
+	"var-main-lazy": c08Dump + `{ r = (getline v); dump(); got(r, v); dump() }`,
+	"var-file-lazy": c08Dump + `{ r = (getline v < AUX); dump(); got(r, v); dump() }`,
 	"split":    `BEGIN { n = split(sarg(), arr); rec(n, 0, 0, "", ""); for (i = 1; i <= n; i++) fld(arr[i]) }`,
 }
 
@@ -151,6 +155,12 @@ func newC08Env() (*c08Env, error) {
 		"nf":    func(r int) int { return len(e.rows[r-1]) },
 		"getf":  func(r, i int) string { return e.rows[r-1][i-1] },
 		"sarg":  func() string { return e.arg },
+	}
+	// write-side variants that first write in ANOTHER output mode (to /dev/null and through a $0
+	// rebuild) and then switch to the mode under test: nothing of the first mode may stick
+	warm := "BEGIN {\n\twant = OUTPUTMODE\n\tOUTPUTMODE = (want ~ /^tsv/) ? \"csv separator=;\" : \"tsv\"\n\tprint \"warm\", \"u p\" > \"/dev/null\"\n\t$0 = \"\"; $1 = \"w\"; $2 = \"u\"; wu = $0\n\tOUTPUTMODE = want\n"
+	for _, w := range []string{"print", "rebuild"} {
+		c08Sources[w+"-sw"] = strings.Replace(c08Sources[w], "BEGIN {\n", warm, 1)
 	}
 	for name, src := range c08Sources {
 		prog, err, pm := run.Parse(src, e.funcs)
@@ -771,7 +781,13 @@ func c08RoundTrip(c *core.Ctx, e *c08Env, cs c08Case, verbose bool) (execs int) 
 	} else {
 		cfg.NewlineOutput = interp.RawNewlineMode
 	}
-	out := run.Exec(e.progs[cs.Writer], cfg, run.Opts{})
+	writer := cs.Writer
+	if sep := cs.D.SepRune(); strings.HasSuffix(writer, "-sw") && (sep == ' ' || sep == '\v' || sep == '\f' || sep == '\n' || sep == '\r' || (sep == '\t' && cs.D.Mode != "tsv")) {
+		// the switching writers restore the mode by assigning OUTPUTMODE its own earlier value; the
+		// text form of a mode cannot carry a blank separator (not a CSV matter): plain writer
+		writer = strings.TrimSuffix(writer, "-sw")
+	}
+	out := run.Exec(e.progs[writer], cfg, run.Opts{})
 	execs++
 	if out.Panic != "" || out.Err != "" {
 		c08Violation(c, "crash", "", fmt.Sprintf("[roundtrip %s writer=%s] writing failed: %s%s", cs.D.Key(), cs.Writer, out.Err, run.PanicSite(out.Panic)), "rows written", out.Err+out.Panic, cs)
@@ -857,8 +873,14 @@ func c08RoundTrip(c *core.Ctx, e *c08Env, cs c08Case, verbose bool) (execs int) 
 // record ($0, NF, fields) without touching NR.
 func c08GetlineCase(c *core.Ctx, e *c08Env, cs c08Case, verbose bool) int {
 	d := cs.D
-	d.Header = false
+	// header variant: header mode with an EMPTY auxiliary file. Reading nothing from another
+	// stream must not change how the main input is read (no row lost, no second header taken).
+	hdrVariant := cs.D.Header && len(cs.Aux) == 0
+	d.Header = hdrVariant
 	mainRecs, err1 := cm.Model(cs.Input, d.SepRune(), d.Comment, true)
+	if hdrVariant && err1 == nil && len(mainRecs) > 0 {
+		mainRecs = mainRecs[1:]
+	}
 	auxRecs, err2 := cm.Model(cs.Aux, d.SepRune(), d.Comment, true)
 	if err1 != nil || err2 != nil {
 		c.Inconclusive("model: getline case")
@@ -894,17 +916,29 @@ func c08GetlineCase(c *core.Ctx, e *c08Env, cs c08Case, verbose bool) int {
 		}
 		cur := mainRecs[mi]
 		mi++
-		if !cm.EqualFields(before.Fields, cur.Fields) || !cur.Accepts(before.D0) {
-			// the plain reading is judged by the other families; do not double-report here
+		form := strings.TrimSuffix(cs.Form, "-lazy")
+		if hdrVariant && (!cm.EqualFields(before.Fields, cur.Fields) || !cur.Accepts(before.D0)) {
+			viol("", fmt.Sprintf("header mode, getline from an empty file in every rule: record %d is $0=%s %q, the oracle's data row %d is %q", k/3+1, c08Q(before.D0), before.Fields, mi, cur.Fields),
+				fmt.Sprintf("%q", cur.Fields), fmt.Sprintf("%q", before.Fields))
 			return 1
 		}
-		switch cs.Form {
+		if !cm.EqualFields(before.Fields, cur.Fields) || !cur.Accepts(before.D0) {
+			if form != cs.Form && cur.Accepts(before.D0) {
+				// lazy form: $0 is the current record but its first field access (after the getline
+				// into a variable) shows something else
+				viol("", fmt.Sprintf("after a getline into a variable, the first look at the fields of the current record $0=%s shows NF=%d %q, the record has %q",
+					c08Q(before.D0), before.NF, before.Fields, cur.Fields), fmt.Sprintf("%q", cur.Fields), fmt.Sprintf("%q", before.Fields))
+			}
+			// (otherwise: the plain reading is judged by the other families; do not double-report here)
+			return 1
+		}
+		switch form {
 		case "var-main", "var-file":
 			var src *cm.ExpRec
-			if cs.Form == "var-main" && mi < len(mainRecs) {
+			if form == "var-main" && mi < len(mainRecs) {
 				src = &mainRecs[mi]
 				mi++
-			} else if cs.Form == "var-file" && ai < len(auxRecs) {
+			} else if form == "var-file" && ai < len(auxRecs) {
 				src = &auxRecs[ai]
 				ai++
 			}
@@ -969,8 +1003,13 @@ func c08GetlineCase(c *core.Ctx, e *c08Env, cs c08Case, verbose bool) int {
 			}
 		}
 	}
+	if hdrVariant && form0(cs.Form) == "var-file" && mi != len(mainRecs) {
+		viol("", fmt.Sprintf("header mode, getline from an empty file in every rule: %d data rows were delivered, the oracle has %d", mi, len(mainRecs)), fmt.Sprint(len(mainRecs)), fmt.Sprint(mi))
+	}
 	return 1
 }
+
+func form0(f string) string { return strings.TrimSuffix(f, "-lazy") }
 
 // ---- split() in CSV mode -----------------------------------------------------------------------
 
@@ -1186,7 +1225,7 @@ func c08Run(c *core.Ctx) {
 			}
 		}
 		for ri, row := range rows {
-			for wi, w := range []string{"print", "rebuild"} {
+			for wi, w := range []string{"print", "rebuild", "print-sw", "rebuild-sw"} {
 				if !mine() {
 					continue
 				}
@@ -1244,14 +1283,11 @@ func c08Run(c *core.Ctx) {
 		if strings.HasPrefix(rows[0][0], cm.BOM) {
 			rows[0][0] = "b" + rows[0][0]
 		}
-		w := "print"
-		if rng.Intn(2) == 0 {
-			w = "rebuild"
-		}
+		w := []string{"print", "rebuild", "print-sw", "rebuild-sw"}[rng.Intn(4)]
 		c08RunOne(c, e, c08Case{Family: "roundtrip", D: d, Rows: c08RowsBytes(rows), Writer: w, CRLF: rng.Intn(4) == 0, PlanSeed: rng.Int63()}, false)
 	}
 	nGL := pick(1600, 25600) / c.NBatches
-	forms := []string{"var-main", "var-file", "file"}
+	forms := []string{"var-main", "var-file", "file", "var-main-lazy", "var-file-lazy"}
 	for i := 0; i < nGL; i++ {
 		d := cm.RandDialect(rng)
 		d.Header, d.Via = false, "config"
@@ -1263,7 +1299,10 @@ func c08Run(c *core.Ctx) {
 			}
 			return b
 		}
-		cs := c08Case{Family: "getline", D: d, Input: noBOM(cm.GenText(rng, d, 5)), Aux: noBOM(cm.GenText(rng, d, 4)), Form: forms[i%3]}
+		cs := c08Case{Family: "getline", D: d, Input: noBOM(cm.GenText(rng, d, 5)), Aux: noBOM(cm.GenText(rng, d, 4)), Form: forms[i%len(forms)]}
+		if i%7 == 6 { // header mode + empty auxiliary file
+			cs.D.Header, cs.Aux, cs.Form = true, nil, []string{"var-file", "var-file-lazy"}[(i/7)%2]
+		}
 		if rng.Intn(2) == 0 && len(cs.Input) > 2 {
 			cs.Sizes = []int{1 + rng.Intn(len(cs.Input)-1)}
 		}
